@@ -508,6 +508,97 @@ def run_c15_setup_inputs(cfg: HCfg, c: Ctx) -> Any:
     return {"case": "accepted", **data}
 
 
+# ------------------------------------------------------------------------------------------------ C09: operations after a failed operation
+@watchdog(lambda cfg: "C09")
+def run_c09_after_failures(cfg: HCfg, c: Ctx) -> Any:
+    """Every operation returns or raises, also after an earlier operation on the same (or another) DAG failed: setup() with a
+    failing setup node, failing calls and failing executor runs, followed by setup(), calls, executors.  (A call that blocks
+    for ever is caught by the wall-clock deadline of the harness.)"""
+    from tawazi import Resource, dag, xn
+    from tawazi.errors import TawaziBaseException
+
+    flavour = cfg.flavours[c.choose(len(cfg.flavours), "flavour")] if len(cfg.flavours) > 1 else cfg.flavours
+    OPS = ["setup", "setup_fail:s0", "setup_fail:s1", "call", "call_fail:s1", "call_fail:n", "exec_setup", "other_setup", "other_call"]
+    hist = [OPS[c.choose(len(OPS), "op")] for _ in range(cfg.length)] + ["setup", "call"]
+    c.assume(any("fail" in o for o in hist))
+    res = (Resource.main_thread, Resource.thread)[c.choose(2, "resource")]
+    c.heavy()
+    state = {"fail": None}
+    entered: List[str] = []
+
+    class Boom(Exception):
+        pass
+
+    def make(l: str) -> Any:
+        def fn(*args):  # type: ignore[no-untyped-def]
+            entered.append(l)
+            if state["fail"] == l:
+                raise Boom(l)
+            return SymVal(vapp("f_" + l, [lift(a) for a in args]))
+
+        fn.__name__ = fn.__qualname__ = l
+        return fn
+
+    def build(name: str) -> Any:
+        s0 = xn(make("s0"), setup=True, resource=res)
+        s1 = xn(make("s1"), setup=True, resource=res)
+        n = xn(make("n"), resource=res)
+
+        def pipe(x):  # type: ignore[no-untyped-def]
+            a = s0(7)
+            b = s1(a)
+            return n(b, x)
+
+        pipe.__qualname__ = pipe.__name__ = name
+        return dag(pipe, is_async=(flavour == "a"), max_concurrency=2)
+
+    d, other = build("pipe"), build("other")
+    data: Dict[str, Any] = {"history": hist, "flavour": flavour, "resource": res.value}
+    for step, op in enumerate(hist):
+        name, _, arg = op.partition(":")
+        target = other if name.startswith("other_") else d
+        kind = name.replace("other_", "")
+        state["fail"] = arg or None
+        entered.clear()
+        X = c.val("x%d" % step)
+        try:
+            if kind in ("setup", "setup_fail"):
+                r = target.setup()
+            elif kind == "exec_setup":
+                r = target.executor().setup()
+            else:
+                r = target(X)
+            if hasattr(r, "__await__"):
+                import asyncio
+
+                async def w(r: Any = r) -> Any:
+                    return await r
+
+                r = asyncio.run(w())
+            out: Any = ("value", r)
+        except SXControl:
+            raise
+        except (TawaziBaseException, Boom) as e:
+            out = ("raise", e)
+        finally:
+            state["fail"] = None
+        d2 = {**data, "step": step, "op": op, "entered": list(entered)}
+        failed_here = bool(arg) and arg in entered
+        if failed_here:
+            c.check(out[0] == "raise", "operation %s returned normally although %s raised" % (op, arg), prop="C09", data=d2)
+            c.cover("w_failed_operation")
+        else:
+            c.check(out[0] == "value", "operation %s raised %r although no node failed" % (op, out[1]), prop="C09", data=d2)
+            if kind == "call":
+                want = SymVal(vapp("f_n", [lift(SymVal(vapp("f_s1", [lift(SymVal(vapp("f_s0", [lift(7)])))]))), lift(X)]))
+                c.check(veq(out[1], want), "call returned something else than the plain evaluation", prop="C09", data={**d2, "got": out[1], "want": want})
+    c.cover("w_operations_after_failure")
+    c.cover("states", hash(repr(data)))
+    if cfg.twin:
+        c.check(False, "reachability twin: the end of the harness is reachable", prop="TWIN")
+    return data
+
+
 # ------------------------------------------------------------------------------------------------ C18
 @watchdog(lambda cfg: "C18")
 def run_c18(cfg: HCfg, c: Ctx) -> Any:
